@@ -200,6 +200,18 @@ fn run(ctx: &Ctx, rep: &Report) {
                         for (k, what) in timestamps_ok(&b, sd, key.is_some()) {
                             rep.violation(k, what, w(), cfg.files.len() as u64);
                         }
+                        // changelog times are the caller's data, but an entry that was given a time not
+                        // later than the source date must not come out later than it
+                        if let Ok(p) = walk_package(&b) {
+                            if let Some(times) = p.hdr.get_u32s(&b, tag::CHANGELOGTIME) {
+                                let given_max_le_sd = cfg.changelog.iter().all(|c| c.2 <= sd);
+                                if given_max_le_sd {
+                                    if let Some(bad) = times.iter().find(|t| **t > sd) {
+                                        rep.violation("changelog-time-after-source-date", format!("a changelog time {bad} is later than the source date {sd} although every entry was given a time <= {sd}"), w(), cfg.files.len() as u64);
+                                    }
+                                }
+                            }
+                        }
                         first = Some(b);
                     }
                     *local.entry("builds.in_process".into()).or_insert(0) += 1;
